@@ -84,14 +84,22 @@ func vAudioTimeOracle(refTicks, refTs, frameDur, audioTs int) int {
 
 // ---- publishTime formatting: ConvertToDateTimeMS (time formatting) is stubbed under symbolic execution ----
 
-var vLastDateTimeMS int64
+// A DateTime produced under symbolic execution is an opaque string that carries its Unix-millisecond value.
+func vStubConvertToDateTimeMS(ms int64) m.DateTime { return m.DateTime(vEncInt("dt", int(ms))) }
 
-func vStubConvertToDateTimeMS(ms int64) m.DateTime {
-	vLastDateTimeMS = ms
-	return ""
+// mirrors mpd.ConvertToDateTime: whole seconds plus the fraction, formatted with millisecond precision (truncated)
+func vStubConvertToDateTime(seconds float64) m.DateTime {
+	s := int64(seconds)
+	ns := int64((seconds - float64(s)) * 1_000_000_000)
+	return m.DateTime(vEncInt("dt", int(s*1000+ns/1_000_000)))
 }
 
-func vStubDateTimeMS(dt m.DateTime) int { return int(vLastDateTimeMS) }
+func vStubDateTimeMS(dt m.DateTime) int { return vDecInt("dt", string(dt)) }
+
+// mirrors (mpd.DateTime).ConvertToSeconds
+func vStubDateTimeToSeconds(dt m.DateTime) (float64, error) {
+	return float64(int64(vDecInt("dt", string(dt)))*1_000_000) / 1_000_000_000, nil
+}
 
 // vPubMS is the publishTime (Unix ms) the MPD carries for a publish time in seconds, as written by the real code.
 func vPubMS(sec float64) int {
